@@ -380,12 +380,23 @@ const EVENT_BYTES: usize = 96;
 const K_REPLAY: usize = 2;
 const MODEL_CAP: usize = 3_000_000;
 
-fn has_alias_key(n: &Node) -> bool {
-    match &n.kind {
-        Kind::Seq { items, .. } => items.iter().any(has_alias_key),
-        Kind::Map { entries, .. } => entries.iter().any(|(k, v)| matches!(k.kind, Kind::Alias(_)) || has_alias_key(k) || has_alias_key(v)),
-        _ => false,
+/// the largest number of key positions on the way from the root to an alias (0: no alias below a
+/// key): every enclosing key captures the replayed node once more
+fn alias_key_depth(n: &Node) -> usize {
+    // returns (has an alias below, depth)
+    fn go(n: &Node) -> Option<usize> {
+        match &n.kind {
+            Kind::Alias(_) => Some(0),
+            Kind::Seq { items, .. } => items.iter().filter_map(go).max(),
+            Kind::Map { entries, .. } => entries
+                .iter()
+                .flat_map(|(k, v)| [go(k).map(|d| d + 1), go(v)])
+                .flatten()
+                .max(),
+            _ => None,
+        }
     }
+    go(n).unwrap_or(0)
 }
 
 fn nested_anchor_depth(n: &Node) -> usize {
@@ -507,8 +518,9 @@ fn check_case(c: &Case) -> Outcome {
     // (an alias in key position: the replayed node is also captured as a key - its events once
     // more plus a fingerprint that owns a copy of every scalar - "keys are captured as replayable
     // nodes with a structural fingerprint"; libFuzzer artifact of a thorough sweep)
+    // (and once more for every further enclosing node that is itself a key: `? &a {? *d : *d}`)
     let k_replay = match &c.fam {
-        Fam::Doc { doc, .. } if has_alias_key(doc) => K_REPLAY + 2,
+        Fam::Doc { doc, .. } => K_REPLAY + 2 * alias_key_depth(doc),
         _ => K_REPLAY,
     };
     let bound = C0 + K * (text.len() + EVENT_BYTES * raw_events) + k_replay * EVENT_BYTES * counted_replayed;
